@@ -3,6 +3,7 @@
 #include "common.h"
 #include "readhist.h"
 #include "validfile.h"
+#include "schedgen.h"
 
 namespace {
 using namespace model;
@@ -26,6 +27,9 @@ void run_c14(sim::RunCtx& ctx) {
     if (!validfile::make(vf, path, vo)) { ctx.refusal = true; SIM_COUNT("refusal.no_valid_file"); return; }
     validfile::finish(vf, ctx);
     uint32_t rs = sim::draw(0xFFFFFFFFu);
+    // 1 run in 4: the undamaged image is also verified by 2-4 caller tasks at once on a cold library (lazy CRC tables built inside the schedule)
+    bool concurrent = sim::draw(4) == 3; int K = 0; sim::SchedParams sp; std::vector<int> kmode;
+    if (concurrent) { K = 2 + (int)sim::draw(3); sp = schedgen::gen(); if (sp.policy == 0) sp.policy = 1 + (int)sim::draw(4); for (int k = 0; k < K; k++) kmode.push_back((int)sim::draw(3)); }
     if (common::plan_only()) return;
     const Table& t = vf.table;
     ref::Parsed P = vf.from_carquet ? vf.parsed : ref::parse_file(vf.bytes.data(), vf.bytes.size());
@@ -41,6 +45,25 @@ void run_c14(sim::RunCtx& ctx) {
             SIM_CHECK(rc.ok, "crc.false_alarm_on_intact_file", "%s rg%zu col%zu: reading an undamaged file with verify_checksums=true fails (CRC written by %s)", exec::mode_name(mode), g, c, vf.from_carquet ? "carquet" : "zlib crc32 on the peer side");
             exec::compare_chunk(rc, t.rgs[g].cols[c], t.cols[c], exec::mode_name(mode), (int)g, (int)c);
         }
+    }
+    if (concurrent) {
+        sim::make_library_cold();
+        sim::sched_begin(sp);
+        for (int k = 0; k < K; k++) sim::sched_spawn([&, k]() {
+            auto o = exec::open_image(path, kmode[(size_t)k], true);
+            SIM_CHECK(o->r != nullptr, "open.valid_file_rejected", "task %d: undamaged file does not open", k);
+            for (size_t g = 0; g < t.rgs.size(); g++) for (size_t c = 0; c < t.cols.size(); c++) {
+                exec::ReadChunk rc = exec::read_chunk_whole(o->r, (int)g, (int)c, t.cols[c].type, t.cols[c].tlen, t.cols[c].max_def, (int64_t)t.rgs[g].cols[c].entries());
+                SIM_CHECK(rc.ok, "crc.false_alarm_on_intact_file", "task %d of %d (%s) rg%zu col%zu: concurrent first use of the library: reading an undamaged file with verify_checksums=true fails", k, K, exec::mode_name(kmode[(size_t)k]), g, c);
+                exec::compare_chunk(rc, t.rgs[g].cols[c], t.cols[c], "concurrent", (int)g, (int)c);
+            }
+        });
+        sim::sched_join_all();
+        sim::SchedStats ss = sim::sched_stats();
+        sim::sched_end();
+        sim::check_pending_violation();
+        if (ss.switches) SIM_COUNT("probe.concurrent_cold_verification_interleaved");
+        SIM_COUNT("probe.concurrent_cold_verification");
     }
     if (pages.empty()) { ctx.evals = 1; return; }
     sim::Rng r; r.seed(rs, 14);
@@ -114,7 +137,7 @@ namespace sim {
 void register_c14() {
     Property p;
     p.id = "C14"; p.level = "fault_enumeration";
-    p.rule = "per seeded image (carquet-written with all codecs and small pages, or peer-written with dictionary pages and zlib-computed CRCs) every page body is damaged in turn: every single bit (when page bytes <= 8 KiB, else the first/last 64 bytes of each page plus a 1/16 sample; quick tier: each bit in one transport in rotation and bit 0 of every byte in all three, thorough tier: every bit in all three), every byte set to a different seeded value x 3 transports, a seeded 2-32 bit burst at every byte offset x 3 transports, all with verify_checksums=true: no entry of the damaged page (for a dictionary page: of the chunk) may be delivered, everything delivered before is a correct prefix, and the read must end in an error; 1/24 of the damages also go through the batch reader, 1/12 are re-read with verification off (safety only); the undamaged image must verify in all transports; one evaluation = one damaged read";
+    p.rule = "per seeded image (carquet-written with all codecs and small pages, or peer-written with dictionary pages and zlib-computed CRCs) every page body is damaged in turn: every single bit (when page bytes <= 8 KiB, else the first/last 64 bytes of each page plus a 1/16 sample; quick tier: each bit in one transport in rotation and bit 0 of every byte in all three, thorough tier: every bit in all three), every byte set to a different seeded value x 3 transports, a seeded 2-32 bit burst at every byte offset x 3 transports, all with verify_checksums=true: no entry of the damaged page (for a dictionary page: of the chunk) may be delivered, everything delivered before is a correct prefix, and the read must end in an error; 1/24 of the damages also go through the batch reader, 1/12 are re-read with verification off (safety only); the undamaged image must verify in all transports, and in 1 run of 4 also when 2-4 caller tasks verify it at once on a cold library under a seeded schedule (lazy CRC tables); one evaluation = one damaged read";
     p.quick_runs = 160; p.thorough_runs = 12000;
     p.run = run_c14; p.recheck = 12;
     p.assumptions = {"only pages that carry a CRC are damaged (carquet always writes one; the peer is forced to)",
